@@ -137,6 +137,41 @@ Definition doc_header_gap : doc := D [
   ".outputs y";
   ".subckt INV I=a O=y";
   ".end" ].
+(* comment lines and blank lines at every line boundary - between .model and the port lines, between the port
+   lines, between an instance statement and its .cname/.attr/.param, inside the truth table of a .names -,
+   the port lines' nets used by a .names and a .subckt, and no .end at the end of the file.  (A trailing
+   "# ..." on a statement line never reaches the document: the tokenizer drops it.) *)
+Definition doc_gaps : doc := D [
+  "# head";
+  ".model top";
+  "";
+  "# ports";
+  ".inputs a b";
+  "";
+  ".outputs y z";
+  "# clock";
+  ".clock a";
+  ".names a b y";
+  "# rows";
+  "11 1";
+  "";
+  "0- 1";
+  "# name of the table";
+  ".cname t1";
+  ".subckt INV I=y O=z";
+  "";
+  "# the name follows";
+  ".cname u1";
+  "# and the rest";
+  ".attr src f.v:3";
+  "";
+  ".param W 2" ].
+(* .end is optional at the end of the file: after an instance statement, inside a truth table, in the header *)
+Definition doc_no_end_inst : doc := D [ ".model top"; ".inputs a"; ".outputs y"; ".subckt INV I=a O=y" ].
+Definition doc_no_end_rows : doc := D [ ".model top"; ".inputs a"; ".outputs y"; ".names a y"; "1 1" ].
+Definition doc_no_end_hdr : doc := D [ ".model top"; ".inputs a"; ".outputs y" ].
+(* the port lines in another order: the reader takes them (the theorem C18_sound_full_holds does not cover it) *)
+Definition doc_outputs_first : doc := D [ ".model top"; ".clock c"; ".outputs y"; ".inputs a"; ".subckt INV I=a O=y"; ".end" ].
 (* .conn before the statements that use the nets *)
 Definition doc_conn_early : doc := D [
   ".model top";
@@ -228,6 +263,14 @@ Definition pin_vpr : pinref := PTop (s2l "__vpr__unconn3") 0.
 Definition pin_i0_in1 : pinref := PInst 0 (s2l "in_1") 0.
 Definition pin_i1_out : pinref := PInst 1 (s2l "out") 0.
 Definition pin_i2_I : pinref := PInst 2 (s2l "I") 0.
+(* expected values of the repaired header-gap / comment-in-info / any-order examples *)
+Definition gap_ports : list (str * dir) := [(s2l "a", DIn); (s2l "y", DOut)].
+Definition of_ports : list (str * dir) := [(s2l "y", DOut); (s2l "a", DIn)].
+Definition u1_names : list (option str) := [Some (s2l "u1")].
+Definition info_comment : list (list str) := [[s2l "the"; s2l "name"; s2l "follows"]].
+Definition gaps_cnames : list (option str) := [Some (s2l "t1"); Some (s2l "u1")].
+Definition clock_a : option (list str) := Some [s2l "a"].
+Definition clock_c : option (list str) := Some [s2l "c"].
 End C18Docs2.
 Export C18Docs2.
 
@@ -245,40 +288,12 @@ Proof.
   destruct (H1 _ eq_refl) as [n' [H2 _]]. vm_compute in H2. discriminate.
 Qed.
 
-Lemma sound_refuted_comment_in_info :
-  exists d n, supported d = false /\ elab d = Ok n /\ ~ denote d n.
-Proof.
-  exists doc_comment_in_info.
-  remember (elab doc_comment_in_info) as r eqn:Er. vm_compute in Er. subst r.
-  eexists. split; [vm_compute; reflexivity|]. split; [reflexivity|].
-  intros [ss [Hg [HF _]]].
-  vm_compute in Hg. inversion Hg; subst ss. clear Hg.
-  destruct (HF nm_top (or_introl eq_refl)) as [[_ Hi _ _ _] _].
-  specialize (Hi _ eq_refl). vm_compute in Hi. discriminate.
-Qed.
-
 Lemma same_wire_b_complete m a b :
   same_wire m a b ->
   existsb (fun c => existsb (fun w => wire_has a w && wire_has b w) (c_wires c)) (m_cables m) = true.
 Proof.
   intros [c [w [Hc [Hw [Ha Hb]]]]]. apply existsb_exists. exists c. split; [assumption|].
   apply existsb_exists. exists w. split; [assumption|]. apply andb_true_iff. split; apply existsb_pinref; assumption.
-Qed.
-
-Lemma sound_refuted_header_gap :
-  exists d n, supported d = false /\ elab d = Ok n /\ ~ denote d n.
-Proof.
-  exists doc_header_gap.
-  remember (elab doc_header_gap) as r eqn:Er. vm_compute in Er. subst r.
-  eexists. split; [vm_compute; reflexivity|]. split; [reflexivity|].
-  intros [ss [Hg [HF _]]].
-  vm_compute in Hg. inversion Hg; subst ss. clear Hg.
-  destruct (HF nm_top (or_introl eq_refl)) as [[_ _ _ Hn _] _].
-  specialize (Hn eq_refl _ eq_refl (PTop [97%N] 0) (PInst 0 [73%N] 0)).
-  destruct Hn as [_ Hn].
-  match type of Hn with ?P -> _ => assert (HP : P) end.
-  { exists ([97%N], 0), ([97%N], 0). vm_compute. split; [left; reflexivity|]. split; [right; right; left; reflexivity|]. apply sb_refl. }
-  apply Hn in HP. apply same_wire_b_complete in HP. vm_compute in HP. discriminate.
 Qed.
 
 (* the file joins net a with net b, and a third net called a_0_b_0 with net c.  Before the repair of
